@@ -9,4 +9,5 @@ mkdir -p /work/$n
 git -C /verif worktree add -q -b w-$n /work/$n/verif HEAD
 git -C /repo worktree add -q -b w-$n /work/$n/repo HEAD
 ln -sfn /work/$n/repo/src /work/$n/verif/harness/reposrc
+git -C /work/$n/verif update-index --assume-unchanged harness/reposrc
 echo "export VERIF_REPO=/work/$n/repo; cd /work/$n/verif"
